@@ -320,6 +320,16 @@ def check(an: Analysis) -> None:
         )
         if w is not None:
             ob.fail(nxt, aw.ast, "an element already handed to the pending receive is lost when the receiving task is cancelled before it wakes up", CFG.show_path([aw] + w))
+        for label, vals in (("still pending", {"done": False}), ("cancelled", {"done": True, "cancelled": True}), ("failed with the finish reason", {"done": True, "cancelled": False, "exception": _SENTINEL})):
+
+            def env_other(e: ast.AST, vals=vals):
+                if isinstance(e, ast.Call) and isinstance(e.func, ast.Attribute) and is_same_future(e.func.value) and e.func.attr in vals:
+                    return vals[e.func.attr]
+                return NOVALUE
+
+            w = gn.search(starts, lambda n: n in rebuf, skip_edge=Scenario(gn, dn, env_other).skip, include_start=True)
+            if w is not None:
+                ob.fail(nxt, rebuf[0].ast, f"the cancellation handler reads the result of a future that is {label}: result() raises and the cancellation is replaced by that error", CFG.show_path(w))
         clears = [n for n in gn.nodes if n.kind == "stmt" and isinstance(n.ast, ast.Assign) and any(dotted(t) == "self._waiting" for t in n.ast.targets) and isinstance(n.ast.value, ast.Constant) and n.ast.value.value is None]
         if not clears:
             ob.fail(nxt, None, "self._waiting is never cleared after a receive")
